@@ -235,6 +235,20 @@ pub fn run(ctx: &mut Ctx) {
                 for (lab, p, e) in builders(0, &t) { if e.is_none() { wellformed_case(ctx, &ls, compressed, &format!("{}+mb", lab), &p, e, &format!("n=0,text={}", tl)); } }
             }
         }
+        // characters beyond the basic multilingual plane (an emoji typed by a user; the four-byte GB18030 sequences and the
+        // HKSCS pairs that the ^S / ^H decoders turn into plane-1 / plane-2 characters): sent as '?', never an abort
+        for t in ["\u{1f600}", "a\u{10000}b", "\u{27267}", "ok \u{1f3c1} go", "\u{10ffff}"] {
+            for (lab, p, e) in builders(0, t) { if e.is_none() { wellformed_case(ctx, &ls, compressed, &format!("{}+astral", lab), &p, e, &format!("n=0,cps={}", crate::text::cps(t).replace(',', ";"))); } }
+        }
+        for body in [&b"^S\x90\x30\x81\x30"[..], b"^H\x87\x45", b"x^S\x90\x30\x81\x30y\0\0", b"^S\xfe\x39\xfe\x39"] {
+            // IS_MSO (type 11), IS_III (12), IS_MTC (14): header + text, NUL-padded to a multiple of 4
+            for (ty, hdr) in [(11u8, vec![0u8, 0, 0, 0, 0, 0]), (12, vec![0u8, 0, 0, 0, 0, 0]), (14, vec![0u8, 0, 0, 0, 0, 0])] {
+                let mut f = vec![0u8, ty]; f.extend_from_slice(&hdr); f.extend_from_slice(body);
+                while f.len() % 4 != 0 { f.push(0); }
+                f[0] = crate::conn::size_byte(compressed, f.len());
+                redecode_case(ctx, &ls, compressed, &f, false);
+            }
+        }
         // texts whose byte just before / at / after each field width is a caret (a colour code, an escape or a codepage
         // marker cut in half by the width): whatever the writer does about it, the frame stays well formed
         for w in [6usize, 8, 16, 24, 32, 64, 96, 128, 240] {
